@@ -1,0 +1,5 @@
+//go:build !verif
+
+package catalog
+
+func verifYield(string) {}
